@@ -367,7 +367,7 @@ func (e *Engine) apply(op Op) string {
 		after := e.cbFlushed()
 		if err != nil {
 			e.Disk.Marker("pq-op-fail")
-			if !isOOM(err) {
+			if !isOOM(err) && e.Disk.Fault == nil {
 				e.fail("Write(%d bytes) failed: %v", n, err)
 			}
 			if k != 0 {
@@ -405,7 +405,7 @@ func (e *Engine) apply(op Op) string {
 		}
 		if err != nil {
 			e.Disk.Marker("pq-op-fail")
-			if !isOOM(err) {
+			if !isOOM(err) && e.Disk.Fault == nil {
 				e.fail("Next failed: %v", err)
 			}
 			e.FlushErrors++
@@ -433,7 +433,7 @@ func (e *Engine) apply(op Op) string {
 		}
 		if err != nil {
 			e.Disk.Marker("pq-op-fail")
-			if !isOOM(err) {
+			if !isOOM(err) && e.Disk.Fault == nil {
 				e.fail("Flush failed: %v", err)
 			}
 			e.FlushErrors++
@@ -618,6 +618,23 @@ func (e *Engine) apply(op Op) string {
 
 	case "counters":
 		e.CheckCounters("counters")
+		return ""
+
+	case "fault":
+		// fail the N-th next write (P = 0) / sync (P = 1) call of the file and the Len - 1 calls after it
+		k := simdisk.OpWrite
+		if op.Seed%2 == 1 {
+			k = simdisk.OpSync
+		}
+		l := op.N
+		if l <= 0 {
+			l = 1
+		}
+		e.Disk.SetFaults([]simdisk.FaultRule{{Kind: k, From: e.Disk.Count(k), Len: l}})
+		return ""
+
+	case "nofault":
+		e.Disk.Fault = nil
 		return ""
 
 	case "appfill":
